@@ -7,6 +7,11 @@ import AGH.Spec.StatsLocks
 import AGH.Spec.Stats
 namespace AGH.C09
 
+theorem execBody_cons {L : Type} (i : Instr L) (b : List (Instr L)) (p : State × L) :
+    execBody (i :: b) p = execBody b (execI i p) := rfl
+
+theorem execBody_nil {L : Type} (p : State × L) : execBody ([] : List (Instr L)) p = p := rfl
+
 theorem updBody_effect (F : LockFacts) (e : Entry) (s : State) :
     (execBody (updBody F e) (s, Loc.init)).1 = (updateN s e 1).1 := by
   have hU : (updateN s e 1).1 = match update s e with | .ok s' => s' | .error _ => s := by
@@ -29,63 +34,55 @@ theorem updBody_effect (F : LockFacts) (e : Entry) (s : State) :
 theorem flushBody_effect (F : LockFacts) (id : Nat) (s : State) :
     (execBody (flushBody F id) (s, Loc.init)).1 = tick s id := by
   cases hF : F.flushCurr <;>
-  · simp only [flushBody, hF, optLock, optUnlock, execBody, List.cons_append, List.nil_append, List.append_nil,
-      List.foldl_cons, List.foldl_nil, execI, Loc.init, tick, flush]
-    by_cases hc : s.limitHours = 0 ∨ s.curr.id = id
-    · have hb : (s.limitHours == 0 || s.curr.id == id) = true := by
+  · simp only [flushBody, hF, optLock, optUnlock, List.cons_append, List.nil_append, List.append_nil, tick, flush]
+    repeat (rw [execBody_cons]; simp only [execI, Loc.init])
+    rw [execBody_nil]
+    have hlh : ({ s with clock := id } : State).limitHours = s.limitHours := rfl
+    simp only [hlh]
+    generalize s.limitHours = n
+    by_cases hc : n = 0 ∨ s.curr.id = id
+    · have hb : (n == 0 || s.curr.id == id) = true := by
         rcases hc with hc | hc <;> simp [hc]
-      have hc' : ({ s with clock := id } : State).limitHours = 0 ∨ s.curr.id = id := hc
       simp only [hb, Bool.not_true, Bool.false_eq_true, if_false]
-      rw [if_pos hc']
-    · have hb : (s.limitHours == 0 || s.curr.id == id) = false := by
-        have h1 : ¬ s.limitHours = 0 := fun h => hc (Or.inl h)
+      rw [if_pos hc]
+    · have hb : (n == 0 || s.curr.id == id) = false := by
+        have h1 : ¬ n = 0 := fun h => hc (Or.inl h)
         have h2 : ¬ s.curr.id = id := fun h => hc (Or.inr h)
         simp [h1, h2]
-      have hc' : ¬ (({ s with clock := id } : State).limitHours = 0 ∨ s.curr.id = id) := hc
       simp only [hb, Bool.not_false, if_true]
-      rw [if_neg hc']
-      rfl
+      rw [if_neg hc]
 
-theorem execBody_cons {L : Type} (i : Instr L) (b : List (Instr L)) (p : State × L) :
-    execBody (i :: b) p = execBody b (execI i p) := rfl
+theorem getData_unfold (s : State) :
+    getData s = if s.limitHours = 0 then .ok emptyResp else
+      match loadUnits s s.limitHours with
+      | .error e => .error e
+      | .ok (units, curID) => dataFromUnits units curID := rfl
 
-theorem execBody_nil {L : Type} (p : State × L) : execBody ([] : List (Instr L)) p = p := rfl
+theorem loadUnits_unfold (s : State) (L : Nat) :
+    loadUnits s L =
+      if ((lookups s.db s.curr.id L ++ [s.curr.serialize]).length != L) = true then .error .unitsLen
+      else .ok (lookups s.db s.curr.id L ++ [s.curr.serialize], s.curr.id) := by
+  unfold loadUnits lookups
+  simp only [bne_iff_ne]
 
 theorem readBody_effect (F : LockFacts) (s : State) :
     (execBody (readBody F) (s, Loc.init)).1 = s ∧
     (execBody (readBody F) (s, Loc.init)).2.result = some (getData s) := by
-  by_cases h0 : s.limitHours = 0
-  · have hb : (s.limitHours == 0) = true := by simp [h0]
-    have hg : getData s = .ok emptyResp := by simp only [getData, h0, if_true]; rfl
-    rw [hg]
-    cases hF : F.loadCurr <;>
-      simp [readBody, hF, optLock, optUnlock, execBody_cons, execBody_nil, execI, Loc.init, hb]
-  · have hb : (s.limitHours == 0) = false := by simp [h0]
-    have hg : getData s = match loadUnits s s.limitHours with
-        | .error e => .error e
-        | .ok (units, curID) => dataFromUnits units curID := by
-      simp only [getData, h0, if_false]
-    rw [hg]
-    cases hF : F.loadCurr <;>
-    · simp only [readBody, hF, optLock, optUnlock, List.cons_append, List.nil_append, List.append_nil,
-        execBody_cons, execBody_nil, execI, Loc.init, hb, Bool.not_false, if_true, Bool.false_eq_true, if_false,
-        loadUnits, true_and]
-      by_cases hl : ((List.range (sub32 s.curr.id (add32 (sub32 s.curr.id s.limitHours) 1))).map
-          (fun k => (s.db.get (add32 (add32 (sub32 s.curr.id s.limitHours) 1) k)).getD UnitDB.empty) ++
-          [s.curr.serialize]).length = s.limitHours
-      · have hb2 : (((List.range (sub32 s.curr.id (add32 (sub32 s.curr.id s.limitHours) 1))).map
-          (fun k => (s.db.get (add32 (add32 (sub32 s.curr.id s.limitHours) 1) k)).getD UnitDB.empty) ++
-          [s.curr.serialize]).length != s.limitHours) = false := by simp [hl]
-        have hn : ¬ ((List.range (sub32 s.curr.id (add32 (sub32 s.curr.id s.limitHours) 1))).map
-          (fun k => (s.db.get (add32 (add32 (sub32 s.curr.id s.limitHours) 1) k)).getD UnitDB.empty) ++
-          [s.curr.serialize]).length ≠ s.limitHours := by simp [hl]
-        simp only [hb2, Bool.false_eq_true, if_false]
-        rw [if_neg hn]
-      · have hb2 : (((List.range (sub32 s.curr.id (add32 (sub32 s.curr.id s.limitHours) 1))).map
-          (fun k => (s.db.get (add32 (add32 (sub32 s.curr.id s.limitHours) 1) k)).getD UnitDB.empty) ++
-          [s.curr.serialize]).length != s.limitHours) = true := by simp [hl]
-        simp only [hb2, if_true]
-        rw [if_pos hl]
+  rw [getData_unfold, loadUnits_unfold]
+  cases hF : F.loadCurr <;>
+  · simp only [readBody, hF, optLock, optUnlock, List.cons_append, List.nil_append, List.append_nil]
+    rw [execBody_cons]
+    simp only [execI, Loc.init]
+    generalize s.limitHours = n
+    by_cases h0 : n = 0
+    · subst h0
+      simp [execBody_cons, execBody_nil, execI]
+    · have hb : (n == 0) = false := by simp [h0]
+      simp only [hb, h0, Bool.not_false, if_false, Bool.false_eq_true]
+      repeat (rw [execBody_cons]; simp only [execI, eq_self, ↓reduceIte])
+      simp only [execBody_nil, true_and]
+      generalize lookups s.db s.curr.id n ++ [s.curr.serialize] = units
+      cases hb2 : (units.length != n) <;> simp
 
 theorem setDaysBody_effect (F : LockFacts) (d : Nat) (s : State) (hd : checkInterval d = true) :
     (execBody (setDaysBody F d) (s, Loc.init)).1 = setLimitDays s d := by
